@@ -158,6 +158,63 @@ func (g *globAnalysis) findMutableGlobals() {
 			_ = gl
 		}
 	}
+	// a global pointer that escapes (returned, stored into a field, kept in an interface) can be written
+	// through any alias: it is mutable if module code outside init writes a field of its type at all,
+	// and those fields are then tainted module-wide
+	writtenFields := map[string][]string{} // type name -> fields stored outside init
+	for _, fn := range g.fns {
+		if isInit(fn) {
+			continue
+		}
+		allInstrs(fn, func(in ssa.Instruction) {
+			if st, ok := in.(*ssa.Store); ok {
+				if fa, ok := st.Addr.(*ssa.FieldAddr); ok {
+					if _, isAlloc := fa.X.(*ssa.Alloc); isAlloc {
+						return // initialising a fresh object
+					}
+					tn, f, _ := fieldOf(fa)
+					writtenFields[tn] = append(writtenFields[tn], f)
+				}
+			}
+		})
+	}
+	for _, fn := range g.fns {
+		der := g.derivedFromGlobals(fn)
+		allInstrs(fn, func(in ssa.Instruction) {
+			esc := func(v ssa.Value) {
+				for gl := range der[v] {
+					pt, ok := gl.Type().(*types.Pointer)
+					if !ok {
+						continue
+					}
+					tn := typeName(pt.Elem())
+					if p2, ok := pt.Elem().Underlying().(*types.Pointer); ok {
+						tn = typeName(p2.Elem())
+					}
+					if fs := writtenFields[tn]; len(fs) > 0 {
+						if _, ok := g.mutable[gl]; !ok {
+							g.mutable[gl] = "its pointer escapes in " + g.p.FuncID(fn) + " (" + g.p.InstrPos(in) + ") and fields of " + tn + " are written elsewhere"
+						}
+						for _, f := range fs {
+							g.fieldTaint[fieldKey{tn, f}] = true
+						}
+					}
+				}
+			}
+			switch x := in.(type) {
+			case *ssa.Return:
+				for _, r := range x.Results {
+					esc(r)
+				}
+			case *ssa.Store:
+				if _, isGlobal := x.Addr.(*ssa.Global); !isGlobal {
+					esc(x.Val)
+				}
+			case *ssa.MakeInterface:
+				esc(x.X)
+			}
+		})
+	}
 	for _, fn := range g.fns {
 		if isInit(fn) {
 			continue
@@ -789,9 +846,43 @@ func ruleGLOB3(w *World) []Ob {
 			}
 			return c.Common().Args[0], true
 		}
-		cleans := func(c ssa.CallInstruction) (ssa.Value, bool) {
+		// which caches a Node method empties: calls of setBranch("") / setPath("") on its receiver (one level of helpers)
+		resetKinds := map[*ssa.Function]map[string]bool{}
+		for _, f := range libFuncs(p) {
+			if recvTypeName(f) != "Node" || f.Parent() != nil {
+				continue
+			}
+			kinds := map[string]bool{}
+			allInstrs(f, func(in ssa.Instruction) {
+				c, ok := in.(*ssa.Call)
+				if !ok || c.Common().StaticCallee() == nil || recvTypeName(c.Common().StaticCallee()) != "Node" {
+					return
+				}
+				n := c.Common().StaticCallee().Name()
+				if (n != "setBranch" && n != "setPath") || !sameVar(c.Common().Args[0], f.Params[0]) {
+					return
+				}
+				elems, ok := variadicElems(c.Common().Args[1])
+				if !ok {
+					return
+				}
+				empty := true
+				for _, e := range elems {
+					if s, isS := constString(e); !isS || s != "" {
+						empty = false
+					}
+				}
+				if empty {
+					kinds[strings.TrimPrefix(n, "set")] = true
+				}
+			})
+			if len(kinds) > 0 {
+				resetKinds[f] = kinds
+			}
+		}
+		cleans := func(c ssa.CallInstruction, kind string) (ssa.Value, bool) {
 			f := c.Common().StaticCallee()
-			if f == nil || recvTypeName(f) != "Node" || f.Name() != "clean" {
+			if f == nil || !resetKinds[f][kind] {
 				return nil, false
 			}
 			return c.Common().Args[0], true
@@ -828,6 +919,7 @@ func ruleGLOB3(w *World) []Ob {
 			instr ssa.Instruction
 			node  ssa.Value
 			what  string
+			kind  string
 		}
 		var sites []site
 		for _, fn := range libFuncs(p) {
@@ -847,7 +939,7 @@ func ruleGLOB3(w *World) []Ob {
 				}
 				for _, e := range elems {
 					if fromGetterOn(e, n) {
-						sites = append(sites, site{fn, c, n, f.Name() + " extending the node's previous " + strings.TrimPrefix(f.Name(), "set")})
+						sites = append(sites, site{fn, c, n, f.Name() + " extending the node's previous " + strings.TrimPrefix(f.Name(), "set"), strings.TrimPrefix(f.Name(), "set")})
 						return
 					}
 				}
@@ -863,10 +955,11 @@ func ruleGLOB3(w *World) []Ob {
 			instr ssa.Instruction
 			node  ssa.Value
 			chain []string
+			kind  string
 		}
 		work := []obligation{}
 		for _, s := range sites {
-			work = append(work, obligation{s.fn, s.instr, s.node, []string{p.FuncID(s.fn) + ": " + s.what}})
+			work = append(work, obligation{s.fn, s.instr, s.node, []string{p.FuncID(s.fn) + ": " + s.what}, s.kind})
 		}
 		seenNeed := map[string]bool{}
 		reported := map[string]bool{}
@@ -880,7 +973,7 @@ func ruleGLOB3(w *World) []Ob {
 				if !ok {
 					return
 				}
-				if recv, ok := cleans(ci); ok && sameVar(recv, o.node) {
+				if recv, ok := cleans(ci, o.kind); ok && sameVar(recv, o.node) {
 					if (in.Block() == o.instr.Block() && instrIndex(in) < instrIndex(o.instr)) || (in.Block() != o.instr.Block() && in.Block().Dominates(o.instr.Block())) {
 						dominated = true
 					}
@@ -931,7 +1024,7 @@ func ruleGLOB3(w *World) []Ob {
 					}
 				}
 				chain := append(append([]string{}, o.chain...), p.FuncID(ci.Parent()))
-				work = append(work, obligation{ci.Parent(), ci.(ssa.Instruction), args[idx], chain})
+				work = append(work, obligation{ci.Parent(), ci.(ssa.Instruction), args[idx], chain, o.kind})
 			}
 		}
 	}
